@@ -101,23 +101,24 @@ func hornerMod(cs []uint64, x, t uint64) uint64 {
 }
 
 type bgvCfg struct {
-	spec      circ.BGVSpec
-	invariant bool
-	shapes    []shape
-	dedicated bool  // small scenario reporting the failures of one known-defect input class (see classes.go)
-	kinds     []int // nil: all kinds
-	declared  bool  // dedicated scenarios: always declare the parity
+	spec        circ.BGVSpec
+	invariant   bool
+	shapes      []shape
+	dedicated   bool  // small scenario reporting the failures of one known-defect input class (see classes.go)
+	kinds       []int // nil: all kinds
+	declared    bool  // dedicated scenarios: always declare the parity
+	declareEach bool
 }
 
 const (
-	kBignum = iota // bignum.Polynomial
-	kPoly          // bgv/polynomial.Polynomial
-	kPolyLazy      // the same with Lazy (lazy relinearization of the power basis)
-	kVector0       // PolynomialVector with mapping index kind-kVector0
+	kBignum   = iota // bignum.Polynomial
+	kPoly            // bgv/polynomial.Polynomial
+	kPolyLazy        // the same with Lazy (lazy relinearization of the power basis)
+	kVector0         // PolynomialVector with mapping index kind-kVector0
 )
 
 const (
-	eEvaluate = iota
+	eEvaluate      = iota
 	eFromPB        // EvaluateFromPowerBasis, basis holds X only
 	eFromPBPre     // basis with X^2, X^3 (and X^4) generated beforehand (relinearized)
 	eFromPBPreLazy // the same, generated lazily (degree-2 ciphertexts in the basis)
@@ -130,6 +131,10 @@ func bgvLeaf(c *engine.Chooser, scName string, cfg *bgvCfg) {
 	w := getBGVWorld(c, cfg.spec)
 	t := w.T
 	maps := mappings()
+	if cfg.declareEach {
+		// probe scenario: every polynomial of the mixed vector declares its own parity
+		maps = append(maps, mapping{"mixed-parity-declared", 3, thirds, true, true})
+	}
 	sh := cfg.shapes[c.ChooseFree(len(cfg.shapes), "shape")]
 	kind := 0
 	if cfg.kinds != nil {
@@ -167,6 +172,9 @@ func bgvLeaf(c *engine.Chooser, scName string, cfg *bgvCfg) {
 	sig := "C13/bgv-" + mode + "/" + entryNames[entry]
 	class := knownClass("bgv", sh, kind, entry, declare)
 	rep := reporter{c: c, class: class, dedicated: cfg.dedicated}
+	if cfg.declareEach && sh.degree > 0 {
+		rep = reporter{c: c, class: classMixedDeclared, dedicated: true}
+	}
 
 	c.Cover("scheme", "bgv-"+mode)
 	c.Cover("entry", "bgv/"+entryNames[entry])
@@ -193,7 +201,11 @@ func bgvLeaf(c *engine.Chooser, scName string, cfg *bgvCfg) {
 	}
 	coeffs := make([][]uint64, npoly)
 	for k := range coeffs {
-		coeffs[k] = bgvCoeffs(t, sh, k)
+		shk := sh
+		if kind >= kVector0 {
+			shk.mask = maps[kind-kVector0].maskOf(sh, k)
+		}
+		coeffs[k] = bgvCoeffs(t, shk, k)
 	}
 	if mp == nil {
 		for j := range want {
@@ -210,6 +222,15 @@ func bgvLeaf(c *engine.Chooser, scName string, cfg *bgvCfg) {
 	// ---- the object handed to the evaluator
 	mkBig := func(k int) bignum.Polynomial {
 		p := bignum.NewPolynomial(bignum.Monomial, coeffs[k], nil)
+		if kind >= kVector0 && maps[kind-kVector0].declareEach {
+			switch k {
+			case 1:
+				p.IsEven = false
+			case 2:
+				p.IsOdd = false
+			}
+			return p
+		}
 		if declare {
 			// MetaData.IsOdd / IsEven: "has odd / even powers"; clearing one declares the sparsity
 			if sh.parity == 1 {
@@ -296,6 +317,13 @@ func bgvLeaf(c *engine.Chooser, scName string, cfg *bgvCfg) {
 	case tooLow && cfg.invariant && err != nil:
 		// scale-invariant mode consumes no level; refusing below ceil(log2 deg) is conservative, not wrong
 		c.Cover("rejected", "bgv-invariant/conservative")
+		c.Outcome("rejected")
+		return
+	case err != nil && entry == eFromPBPreLazy && kind != kPolyLazy:
+		// A basis holding a non-relinearized power handed to a polynomial that is not flagged Lazy: the non-lazy
+		// GenPower refuses to multiply the degree-2 power ("total degree cannot exceed 2"). A clean refusal
+		// (GenPower's doc promises automatic relinearization; it only happens on the lazy path: observation, not judged).
+		c.Cover("rejected", "lazy-basis-with-non-lazy-polynomial")
 		c.Outcome("rejected")
 		return
 	case err != nil:
